@@ -716,4 +716,15 @@ Theorem C16_nushell_subcommand_alias_refuted :
     NushellModel.has_infix s NushellProofs.ex_extern_sub = true /\ NushellModel.has_infix s w = false.
 Proof. exact NushellProofs.nushell_subcommand_alias_refuted. Qed.
 Print Assumptions C16_nushell_subcommand_alias_refuted.
+(** EXACTLY one block per command: the module is the header, the root's block (bare name), then one block
+    ([block_of q] = the block of the command [fst q], quoted name) for every proper descendant of the root -- the list
+    [subs_blocks c d] enumerates the descendants in pre-order, each tree position once -- then the trailer.  Every tree. *)
+Theorem C16_nushell_exactly_one_block_per_command : forall c d,
+  NushellProofs.nu_pieces c d =
+    NushellProofs.NFx NushellProofs.module_open :: NushellProofs.node_pieces (NushellProofs.bin_of c) c d false
+    ++ flat_map NushellProofs.block_of (NushellProofs.subs_blocks c d) ++ [NushellProofs.NFx NushellProofs.module_close] /\
+  map fst (NushellProofs.subs_blocks c d) = flat_map NushellProofs.nodes (c_subs c) /\
+  (forall n, In n (flat_map NushellProofs.nodes (c_subs c)) <-> desc c n).
+Proof. exact NushellProofs.nu_pieces_blocks. Qed.
+Print Assumptions C16_nushell_exactly_one_block_per_command.
 (* ---- end nushell generator model ---- *)
